@@ -87,6 +87,34 @@ def monitor(ck, sc, r):
     return bad
 
 
+def takeover_late_partition(rng, base_id):
+    """a second member takes the partitions over from a first one that committed part of them; at the takeover
+    one partition is leaderless for a few ms while the OffsetFetch (for the others) is slow, so it asks for its
+    committed offset while another OffsetFetch is in flight.  With auto_offset_reset=latest a lookup answered
+    'nothing committed' would start at the log end and the next commit would pass records nobody was handed."""
+    out = []
+    for k in range(12):
+        gap = [0.02, 0.05, 0.1, 0.2][k % 4]
+        slow = [0.1, 0.3][k % 2]
+        t1 = 2.0
+        sc = {"id": base_id + k, "seed": rng.randrange(1 << 30), "brokers": 2, "topics": {"t0": 2},
+              "preload": {"t0": {"0": 30, "1": 30}},
+              "consumers": [
+                  {"name": "c0", "group": "g", "topics": ["t0"], "assignors": ["range"], "auto_commit": True,
+                   "auto_commit_interval_ms": 100, "cb_delay": 0, "auto_offset_reset": "earliest",
+                   "program": [["sleep", 0], ["start"], ["consume", 1.0, 0.1, 2, 0.05], ["stop"]]},
+                  {"name": "c1", "group": "g", "topics": ["t0"], "assignors": ["range"], "auto_commit": True,
+                   "auto_commit_interval_ms": 100, "cb_delay": 0, "auto_offset_reset": ["latest", "earliest"][k % 3 == 2],
+                   "program": [["sleep", t1], ["start"], ["consume", 3.0, 0.1, None, 0], ["stop"]]}],
+              "cluster_events": [{"at": t1 - 0.001, "op": "leaderless", "topic": "t0", "p": 1, "for": gap},
+                                 {"at": t1 + 1.0, "op": "append", "topic": "t0", "p": 1, "n": 2},
+                                 {"at": t1 + 1.0, "op": "append", "topic": "t0", "p": 0, "n": 2}],
+              "api_latency": {"OffsetFetch": slow}, "metadata_max_age_ms": 50,
+              "faults": {"apis": [], "plan": {}}, "coordinator": 0, "max_vtime": 600.0}
+        out.append(sc)
+    return out
+
+
 def run(ck: Check):
     ck.trusted += [
         "Coq 8.16.1 kernel; vm_compute for trace replay and Examples",
@@ -110,6 +138,7 @@ def run(ck: Check):
             for c in sc["consumers"]:
                 if total and rng.random() < 0.7:
                     c["bad_rids"] = rng.sample(range(total), min(total, rng.choice([1, 2, 3])))
+    scs += takeover_late_partition(rng, n)
     results = conssim.run_scenarios(scs, timeout=ck.n(900, 3000))
     traces = []
     nbad = 0
